@@ -160,6 +160,17 @@ CLAIMED["C18"] = dict(
          "float32 are a listed finding (single precision constants in generated Fortran).",
     design_ref="DESIGN.md §4 C18")
 
+CLAIMED["C20"] = dict(
+    technique="Exhaustive enumeration of the backend x solver x vectorize x delay-kind x sparse matrix plus "
+              "Hypothesis-generated single-point malformations of valid models (must-raise oracle)",
+    text="Every matrix cell that the statement names as unsupported must raise before a function/DataFrame is "
+         "returned (the valid neighbour cell is compiled first); every malformed variant (reserved name, undeclared "
+         "variable, misspelt edge/output path component, value for a missing operator, two outputs, operator cycle) "
+         "must raise; inputs/updates to missing variables must at least warn.",
+    note="Only the must-raise direction is asserted; the matrix model is fixed (two nodes, one edge); in the quick tier "
+         "the f2py baseline of Fortran rows is skipped; julia/matlab are not installed.",
+    design_ref="DESIGN.md §4 C20")
+
 NOT_YET = {}
 
 
